@@ -46,7 +46,7 @@ ASSUMPTIONS = [
     'the public adding entry points (BatchRequest.extend also with a one-shot iterator)',
 ]
 SHARDS = {'quick': 4, 'thorough': 16}
-TIMEOUT = {'quick': 400, 'thorough': 2400}
+TIMEOUT = {'quick': 900, 'thorough': 3600}
 ANCHORS = [
     ('pjrpc/client/client.py', 'AbstractClient.traced'), ('pjrpc/client/client.py', 'AbstractAsyncClient.traced'),
     ('pjrpc/client/client.py', 'AbstractClient.retried'), ('pjrpc/client/client.py', 'AbstractAsyncClient.retried'),
